@@ -175,8 +175,12 @@ def compare_composed(R, model, qpre, qchunks):
         if ih_all.get(k, [])[:len(l)] != l:
             return {'op': 'qm run', 'what': 'what the relay was given differs from what was handed off', 'message': k, 'impl': str(l)[:300], 'model': str(ih_all.get(k))[:300],
                     'trace': text[:1500]}
-    mb = calm_only(_group([(int(a), int(b), c, d == '1') for a, b, c, d in parse(fields['bounces'], 4)]))
-    ib = calm_only(_group([(k, r, dots(n), t) for k, r, n, t in R.bounce_calls]))
+    # a message whose _retry_later has not come back when the run ends (it gave up, asked for the bounce, and its removal waits for a
+    # slot of a saturated store pool): the bounce was asked for, the label of the model's retry step is logged when the call returns
+    lagging = set(R.incr_pending)
+    settled_only = lambda g: dict((k, v) for k, v in g.items() if k not in lagging)
+    mb = settled_only(calm_only(_group([(int(a), int(b), c, d == '1') for a, b, c, d in parse(fields['bounces'], 4)])))
+    ib = settled_only(calm_only(_group([(k, r, dots(n), t) for k, r, n, t in R.bounce_calls])))
     if mb != ib:
         return {'op': 'qm run', 'what': 'bounces asked for per message (reply, recipients, too-many-retries)', 'impl': str(ib)[:400], 'model': str(mb)[:400],
                 'trace': text[:1500]}
